@@ -15,6 +15,7 @@ fn content_for(kind: &str, i: usize, ns_other_leaf: (&str, &str)) -> (Option<Seq
     let e2 = el_occ(&format!("E{i}b"), TypeRef::n(ns_other_leaf.0, ns_other_leaf.1), 0, Max::N(1));
     let attrs = vec![Attr { name: format!("at{i}"), ty: TypeRef::b("int"), required: i % 2 == 0 }];
     match kind {
+        "plain" => (Some(Seq::of(vec![e1, el_occ(&format!("E{i}n"), TypeRef::b("long"), 0, Max::Unbounded)])), attrs),
         "empty" => (None, vec![]),
         "sequence" => (Some(Seq::of(vec![e1, e2])), vec![]),
         "sequence+choice" => (Some(Seq::of(vec![e1, Particle::Choice(vec![el(&format!("C{i}x"), TypeRef::b("long")), el(&format!("C{i}y"), TypeRef::b("boolean"))])])), vec![]),
@@ -101,6 +102,17 @@ fn build(chain: &[Link], fan: bool, decoy: bool) -> SchemaSet {
 fn label(chain: &[Link], fan: bool, decoy: bool) -> String {
     let links: Vec<String> = chain.iter().enumerate().map(|(i, l)| format!("T{i}[{}{},{}]", if l.in_b { "B" } else { "A" }, if i > 0 && l.before_base { ",before-base" } else { "" }, l.content)).collect();
     format!("chain {}{}{}", links.join(" <- "), if fan { " +fan" } else { "" }, if decoy { " +decoy" } else { "" })
+}
+
+/// chains whose members cross namespaces without a cyclic import (used by the run-time checks)
+pub fn cross_namespace_states(tier: &str) -> Vec<State> {
+    let mut out = vec![];
+    let layouts: Vec<Vec<bool>> = if tier == "quick" { vec![vec![true, false], vec![false, false], vec![true, false, false]] } else { vec![vec![true, false], vec![false, false], vec![true, true], vec![true, false, false], vec![true, true, false], vec![false, false, false]] };
+    for l in layouts {
+        let chain: Vec<Link> = l.iter().map(|b| Link { in_b: *b, before_base: false, content: "plain" }).collect();
+        out.push(State { label: label(&chain, false, false), depth: chain.len() as u32 - 1, set: build(&chain, false, false) });
+    }
+    out
 }
 
 fn states(tier: &str) -> Vec<State> {
